@@ -9,7 +9,15 @@ pub mod refmodel;
 pub mod util;
 
 #[cfg(kani)]
+pub mod gen_types;
+#[cfg(kani)]
+pub mod symport;
+#[cfg(kani)]
 pub mod vsign;
+#[cfg(kani)]
+pub mod pages;
+#[cfg(kani)]
+mod gen_pages;
 #[cfg(kani)]
 mod c04;
 #[cfg(kani)]
@@ -20,5 +28,9 @@ mod c12;
 pub mod c13;
 #[cfg(kani)]
 mod c14;
+#[cfg(kani)]
+mod c19;
+#[cfg(kani)]
+mod c20;
 #[cfg(kani)]
 mod selftest;
